@@ -552,3 +552,25 @@ Definition ow_age (keep_age : option N) (now : N) (closed : list pfile) : bool :
   | None => true
   | Some d => forallb (fun e => now - d <=? p_mtime e) closed
   end.
+
+(* ---- creation order (C19 "the surviving files are a contiguous most-recent suffix"), evaluated by the set-level
+   correspondence on the implementation's own deletions.  [order] = the names in the order the files were created.
+   A deletion respects it when no file survives that is older than a deleted one, older meaning: smaller mtime, or
+   equal mtime and created earlier. ---- *)
+Fixpoint index_of (nm : fname) (l : list fname) (i : nat) : nat :=
+  match l with [] => i | x :: t => if fname_eqb nm x then i else index_of nm t (S i) end.
+Definition older (order : list fname) (a b : pfile) : bool :=
+  (p_mtime a <? p_mtime b) ||
+  ((p_mtime a =? p_mtime b) && (index_of (p_name a) order 0 <? index_of (p_name b) order 0)%nat).
+Definition oracle_set_creation (order : list fname) (before : list pfile) (del : list fname) : bool :=
+  forallb (fun d => forallb (fun s => negb (older order s d))
+                            (filter (fun e => negb (in_names (p_name e) del)) before))
+          (filter (fun e => in_names (p_name e) del) before).
+(* Known-finding class D20: the clause fails, and every offending pair (survivor older than a deleted file) has
+   EQUAL mtimes -- the heap orders equally old files by path text, which is not their creation order when a
+   counter suffix reaches two digits ("-10" < "-2") or is reused after a deletion. *)
+Definition kf_c19_equal_mtime_name_order (order : list fname) (before : list pfile) (del : list fname) : bool :=
+  negb (oracle_set_creation order before del) &&
+  forallb (fun d => forallb (fun s => negb (older order s d) || (p_mtime s =? p_mtime d))
+                            (filter (fun e => negb (in_names (p_name e) del)) before))
+          (filter (fun e => in_names (p_name e) del) before).
